@@ -13,7 +13,7 @@ import argparse, json, os, re, shutil, subprocess, sys, tempfile, time
 
 VERIF = os.path.dirname(os.path.dirname(os.path.abspath(__file__)))
 REPO = "/repo"
-WORK = "/tmp/seedconfirm"
+WORK = os.environ.get("SEEDCONFIRM_WORK", "/tmp/seedconfirm")
 
 
 def sh(cmd, cwd=None, env=None, timeout=1800):
